@@ -17,6 +17,7 @@ RULE = ("U3 plain / 1 control / 2 controls on the certificate grid of angle trip
         "non-trivial = circuit contains a rule-matched operation and a second operation or a non-trivial placement")
 RULE += ' Also: rule lists over 6 rules incl. one whose output re-matches itself, circuits with same-wrapper gates of equal parameters, predicate/production called in other orders than decompose_operations does.'
 RULE += ' Round 5: a rule with an empty production; one circuit object and one rule-list object mutated in place between decompositions (every history of 2-3 mutations).'
+RULE += ' Round 6: symbolic angle expressions over 7 symbol-name families in every slot order, decomposed symbolically and bound afterwards.'
 ASSUMPTIONS = ["to_unitary is the ordered product (C01) and gate matrices are as C02 decided", "cut-off: W entries are trigonometric polynomials of the certified degree in the half angles"]
 BOUNDS = {"quick": {"grid": "full certificate grid for each U3 kind on one placement", "placements": "all, 3 angle triples", "length": 2},
           "thorough": {"grid": "full certificate grid", "placements": "all, 5 angle triples", "length": 2}}
@@ -328,7 +329,55 @@ def protocol_case(case):
     return {"ok": True, "nt": True, "ops": 5, "out": order}
 
 
-FUNCS = {"rule_list_histories": list_history_case, "protocol": protocol_case, "rule_lists": rule_lists_case, "special_angles": grid_case, "grid": grid_case, "circuits": circuit_case, "circuits_idle": circuit_case, "rules": rules_case}
+SYM_FAMILIES = [("theta", "phi", "lambda"), ("theta", "phi", "lambda_"), ("alpha", "beta", "gamma"), ("a", "b", "c"), ("x", "y", "z"), ("phi", "lam", "theta_0"), ("t", "p", "l")]
+
+
+def _sym_triples(fam):
+    a, b, c = [sympy.Symbol(n) for n in fam]
+    out = [list(p) for p in itertools.permutations((a, b, c))]
+    out += [[b, a, 0.3], [b + c, 2 * a, c], [a, a, a], [c, c, a], [a + b, b + c, c + a], [0.4, c, a - b], [-a, b / 2, a * c], [a, 0.5, a]]
+    return out
+
+
+def symbolic_case(case):
+    """{'fam': index, 'kind': 0|1, 'which': index}: a U3 (plain / controlled) whose ANGLES ARE SYMBOLIC EXPRESSIONS - over symbols with every kind of name, in every slot order -
+    is decomposed symbolically; afterwards both circuits are bound to numbers (two assignments): they must act alike up to one global phase"""
+    from orquestra.quantum import circuits as C
+    fam = SYM_FAMILIES[case["fam"]]
+    tri = _sym_triples(fam)[case["which"]]
+    kind = case["kind"]
+    g = C.U3(*tri)
+    if kind:
+        g = g.controlled(kind)
+    q = list(range(kind + 1))[::-1]
+    n = kind + 1
+    circ = C.Circuit([g(*q)], n_qubits=n)
+    dec = decompose(circ)
+    syms = sorted(set().union(*[sympy.sympify(e).free_symbols for e in tri]), key=str)
+    if set(dec.free_symbols) - set(syms):
+        return {"ok": False, "msg": "decomposition of U3%s introduced new symbols %s" % (tuple(tri), sorted(map(str, set(dec.free_symbols) - set(syms)))), "sig": "symbolic:new-symbols"}
+    k = 0
+    known = None
+    for vals in ((0.37, -1.21, 2.05), (2.9, 0.55, -0.8)):
+        asg = {s_: v for s_, v in zip(syms, vals)}
+        ang = [float(sympy.sympify(e).subs(asg)) for e in tri]
+        cb, db = circ.bind(asg), dec.bind(asg)
+        if db.free_symbols:
+            return {"ok": False, "msg": "decomposed circuit still has free symbols %s after binding every symbol of the original" % db.free_symbols, "sig": "symbolic:free"}
+        ops = [{"gate": u3_gate(kind, ang), "q": q}]
+        bad = judge(ops, n, cb, db)
+        k += 1
+        if bad:
+            r = {"ok": False, "msg": bad[0] + " for symbolic angles %s bound at %s" % (tuple(str(e) for e in tri), {str(a): b for a, b in asg.items()}), "sig": bad[1], "expected": str(bad[2]), "observed": str(bad[3]), "ops": k}
+            if bad[1] != "cu3-relative-phase":
+                return r
+            known = known or r
+    if known:
+        return known
+    return {"ok": True, "nt": True, "ops": k, "out": "kind%d" % kind}
+
+
+FUNCS = {"symbolic_angles": symbolic_case, "rule_list_histories": list_history_case, "protocol": protocol_case, "rule_lists": rule_lists_case, "special_angles": grid_case, "grid": grid_case, "circuits": circuit_case, "circuits_idle": circuit_case, "rules": rules_case}
 
 
 def partner_ops(n):
@@ -399,4 +448,7 @@ def run(run):
     cc2 = [{"ops": [{"gate": u3_gate(kind, tri[0]), "q": list(range(kind + 1))[::-1]}], "n": kind + 1 + extra} for kind in (0, 1) for extra in (1, 2)]
     cc2 += [{"ops": [{"gate": G("T"), "q": [0]}], "n": 3}, {"ops": [], "n": 2}]
     secs.append(Section("circuits_idle", cc2, circuit_case, horizon=300, desc="circuits with idle trailing qubits: the decomposed circuit keeps the register"))
+    sc = [{"fam": f, "kind": kind, "which": w} for f in range(len(SYM_FAMILIES)) for kind in (0, 1) for w in range(14)]
+    secs.append(Section("symbolic_angles", sc, symbolic_case, horizon=600, desc="U3 / c-U3 with symbolic angle expressions over %d symbol-name families (theta/phi/lambda, alpha/beta/gamma ...), all slot permutations + mixed "
+                        "expressions; decomposed symbolically, then both sides bound at two assignments" % len(SYM_FAMILIES)))
     run.run_sections(secs)
